@@ -1,7 +1,7 @@
 SPECIFICATION Spec
 CONSTANTS SIntW = 64
           WordW = 64
-          Stride = 251
+          Stride = 401
           Stride3 = 61
           Offset = 0
           OpFilter = {}
